@@ -6,6 +6,11 @@
 #include "oracles.h"
 #include <dlfcn.h>
 #include <fstream>
+#include <cfenv>
+#if defined(__SSE2__)
+#    include <xmmintrin.h>
+#    include <pmmintrin.h>
+#endif
 
 using namespace orc;
 
@@ -69,7 +74,7 @@ static std::vector<Config>& configs ()
             r.push_back (c);
         }
         {
-            static const char* expect[] = { "gxx17-table", "gxx14-table", "gxx20-table", "clangxx17-table", "gxx17-notable", "gxx14-notable", "gxx20-notable", "clangxx17-notable", "gxx17-cmake-lookup-off", "clangxx17-cmake-lookup-off", "gcc-c11-table", "gcc-c11-notable", "gcc-c99-notable", "clang-c11-table", "clang-c11-notable", "gcc-c11-cmake-lookup-off", "gxx17-f16c", "clangxx17-f16c", "gcc-c11-f16c", "gxx17-f16c-notable" };
+            static const char* expect[] = { "gxx17-table", "gxx14-table", "gxx20-table", "clangxx17-table", "gxx17-notable", "gxx14-notable", "gxx20-notable", "clangxx17-notable", "gxx17-cmake-lookup-off", "clangxx17-cmake-lookup-off", "gcc-c11-table", "gcc-c11-notable", "gcc-c99-notable", "clang-c11-table", "clang-c11-notable", "gcc-c11-cmake-lookup-off", "gxx17-fpexc", "gcc-c11-fpexc", "gxx17-f16c", "clangxx17-f16c", "gcc-c11-f16c", "gxx17-f16c-notable" };
             // labels are positional: when F16C configurations are skipped they are at the end, so the prefix must match
             for (size_t i = 0; i < r.size (); ++i)
                 if (i >= sizeof (expect) / sizeof (expect[0]) || r[i].name != expect[i])
@@ -88,17 +93,19 @@ static std::vector<Config>& configs ()
     return v;
 }
 
+#define C02_CONFIG_LABELS "gxx17-table", "gxx14-table", "gxx20-table", "clangxx17-table", "gxx17-notable", "gxx14-notable", "gxx20-notable", "clangxx17-notable", "gxx17-cmake-lookup-off", "clangxx17-cmake-lookup-off", "gcc-c11-table", "gcc-c11-notable", "gcc-c99-notable", "clang-c11-table", "clang-c11-notable", "gcc-c11-cmake-lookup-off", "gxx17-fpexc", "gcc-c11-fpexc", "gxx17-f16c", "clangxx17-f16c", "gcc-c11-f16c", "gxx17-f16c-notable"
+
 static inline bool always_full (const std::string& n, int spelling)
 {
     if (spelling == 1) return n == "gxx17-table" || n == "gxx17-notable";
-    return n == "gxx17-notable" || n == "gcc-c11-notable" || n == "gcc-c11-table" || n == "gxx17-f16c" || n == "gxx17-cmake-lookup-off";
+    return n == "gxx17-notable" || n == "gcc-c11-notable" || n == "gcc-c11-table" || n == "gxx17-f16c" || n == "gxx17-cmake-lookup-off" || n == "gxx17-fpexc";
 }
 static inline bool f_isnan (uint32_t u) { return (u & 0x7fffffffu) > 0x7f800000u; }
 static inline bool h_isnan (uint16_t h) { return (h & 0x7fff) > 0x7c00; }
 
 // label ids = configuration index (max 32 configurations), label 40 = nan inputs
 
-VP_EXHAUSTIVE (f2h_all_configs, 65536, 65536, "every float bit pattern (index = block of 2^16) x every configuration (quick tier: 7 configuration/spelling pairs covering every source path on all 2^32 inputs, the other 25 on every 4th block = 2^30 inputs each; thorough: all on 2^32) compared bit-for-bit with the reference configuration (C functions, and the class constructor for C++ configurations); F16C configurations: NaN inputs compared by NaN-ness and sign only; non-trivial = a (configuration, input) pair whose code path differs structurally from the reference (all but reference-vs-itself)")
+VP_EXHAUSTIVE (f2h_all_configs, 65536, 65536, "every float bit pattern (index = block of 2^16) x every configuration (quick tier: 8 configuration/spelling pairs covering every source path on all 2^32 inputs, the other 28 on every 4th block = 2^30 inputs each; thorough: all on 2^32) compared bit-for-bit with the reference configuration (C functions, and the class constructor for C++ configurations); F16C configurations: NaN inputs compared by NaN-ness and sign only; non-trivial = a (configuration, input) pair whose code path differs structurally from the reference (all but reference-vs-itself)")
 {
     auto&                 cf = configs ();
     uint32_t              hi = (uint32_t) idx << 16;
@@ -136,7 +143,7 @@ VP_EXHAUSTIVE (f2h_all_configs, 65536, 65536, "every float bit pattern (index = 
     c.bulk (evals, nt);
 }
 
-VP_LABELS (f2h_all_configs, "gxx17-table", "gxx14-table", "gxx20-table", "clangxx17-table", "gxx17-notable", "gxx14-notable", "gxx20-notable", "clangxx17-notable", "gxx17-cmake-lookup-off", "clangxx17-cmake-lookup-off", "gcc-c11-table", "gcc-c11-notable", "gcc-c99-notable", "clang-c11-table", "clang-c11-notable", "gcc-c11-cmake-lookup-off", "gxx17-f16c", "clangxx17-f16c", "gcc-c11-f16c", "gxx17-f16c-notable")
+VP_LABELS (f2h_all_configs, "gxx17-table", "gxx14-table", "gxx20-table", "clangxx17-table", "gxx17-notable", "gxx14-notable", "gxx20-notable", "clangxx17-notable", "gxx17-cmake-lookup-off", "clangxx17-cmake-lookup-off", "gcc-c11-table", "gcc-c11-notable", "gcc-c99-notable", "clang-c11-table", "clang-c11-notable", "gcc-c11-cmake-lookup-off", "gxx17-fpexc", "gcc-c11-fpexc", "gxx17-f16c", "clangxx17-f16c", "gcc-c11-f16c", "gxx17-f16c-notable")
 
 VP_EXHAUSTIVE (h2f_all_configs, 1, 1, "every half bit pattern x every configuration compared bit-for-bit with the reference configuration and with the independent by-value oracle; F16C: NaN payload may differ, NaN-ness and sign must agree; the in-memory table of every table configuration is compared entry-for-entry")
 {
@@ -180,7 +187,138 @@ VP_EXHAUSTIVE (h2f_all_configs, 1, 1, "every half bit pattern x every configurat
     c.bulk (evals, evals);
 }
 
-VP_LABELS (h2f_all_configs, "gxx17-table", "gxx14-table", "gxx20-table", "clangxx17-table", "gxx17-notable", "gxx14-notable", "gxx20-notable", "clangxx17-notable", "gxx17-cmake-lookup-off", "clangxx17-cmake-lookup-off", "gcc-c11-table", "gcc-c11-notable", "gcc-c99-notable", "clang-c11-table", "clang-c11-notable", "gcc-c11-cmake-lookup-off", "gxx17-f16c", "clangxx17-f16c", "gcc-c11-f16c", "gxx17-f16c-notable")
+VP_LABELS (h2f_all_configs, "gxx17-table", "gxx14-table", "gxx20-table", "clangxx17-table", "gxx17-notable", "gxx14-notable", "gxx20-notable", "clangxx17-notable", "gxx17-cmake-lookup-off", "clangxx17-cmake-lookup-off", "gcc-c11-table", "gcc-c11-notable", "gcc-c99-notable", "clang-c11-table", "clang-c11-notable", "gcc-c11-cmake-lookup-off", "gxx17-fpexc", "gcc-c11-fpexc", "gxx17-f16c", "clangxx17-f16c", "gcc-c11-f16c", "gxx17-f16c-notable")
+
+// ---------------------------------------------------------------------------
+// Every back-end must also agree when the calling thread's floating-point environment is not the default one: the
+// software paths are integer algorithms, and the F16C path encodes round-to-nearest in the instruction itself.
+struct FpMode
+{
+    int old_round;
+#if defined(__SSE2__)
+    unsigned old_csr;
+#endif
+    explicit FpMode (int m)
+    {
+        old_round = fegetround ();
+#if defined(__SSE2__)
+        old_csr = _mm_getcsr ();
+#endif
+        switch (m)
+        {
+            case 0: fesetround (FE_UPWARD); break;
+            case 1: fesetround (FE_DOWNWARD); break;
+            case 2: fesetround (FE_TOWARDZERO); break;
+            default:
+#if defined(__SSE2__)
+                _MM_SET_FLUSH_ZERO_MODE (_MM_FLUSH_ZERO_ON);
+                _MM_SET_DENORMALS_ZERO_MODE (_MM_DENORMALS_ZERO_ON);
+#endif
+                break;
+        }
+    }
+    ~FpMode ()
+    {
+#if defined(__SSE2__)
+        _mm_setcsr (old_csr);
+#endif
+        fesetround (old_round);
+    }
+};
+static const char* FPMODE[] = { "FE_UPWARD", "FE_DOWNWARD", "FE_TOWARDZERO", "FTZ+DAZ" };
+static inline bool fenv_interesting_block (uint32_t hi16)
+{
+    uint32_t m = hi16 & 0x7fff;
+    return (m >= 0x3200 && m <= 0x3900) || (m >= 0x4700 && m <= 0x4800) || m <= 0x0080 || m >= 0x7f00;
+}
+
+VP_EXHAUSTIVE (f2h_fp_environment, 65536, 65536, "float bit patterns (index = block of 2^16) converted by every configuration while the calling thread is in a non-default floating-point environment (FE_UPWARD, FE_DOWNWARD, FE_TOWARDZERO, x86 FTZ+DAZ), compared with the reference configuration's result in the default environment.  F16C configurations: blocks with subnormal results / around the overflow threshold / float subnormals / NaNs in all 4 environments, every 4th other block in one rotating environment (thorough: every block, all 4); software configurations: the same special blocks plus every 16th other block in one rotating environment (thorough: every block, one rotating environment); FTZ+DAZ is not applied to F16C configurations (hardware conversion of float subnormals under DAZ is outside the library's control); NaN rule as in f2h_all_configs; non-trivial = always")
+{
+    auto&    cf = configs ();
+    uint32_t hi = (uint32_t) idx << 16;
+    static thread_local std::vector<uint16_t> ref (65536), got (65536);
+    cf[0].f2h_block (hi, ref.data ());
+    bool     special = fenv_interesting_block ((uint32_t) idx), thorough = vp::thorough_flag ();
+    uint64_t evals = 0;
+    VP_NOTE (c, "float patterns 0x" << std::hex << hi << "..0x" << (hi | 0xffff) << " in non-default floating-point environments");
+    for (size_t k = 0; k < cf.size (); ++k)
+    {
+        bool hw = cf[k].f16c ();
+        for (int m = 0; m < 4; ++m)
+        {
+            if (hw)
+            {
+                if (m == 3) continue;
+                if (!(special || thorough))
+                {
+                    if ((idx & 3) != 0) continue;
+                    if (m != (int) ((idx >> 2) % 3)) continue;
+                }
+            }
+            else
+            {
+                if (m != (int) ((idx + k) & 3)) continue;
+                if (!(special || thorough) && ((idx + k) & 15) != 0) continue;
+            }
+            for (int spelling = 0; spelling < 2; ++spelling)
+            {
+                if (spelling == 1 && !cf[k].f2h_block_class) continue;
+                {
+                    FpMode guard (m);
+                    if (spelling == 0)
+                        cf[k].f2h_block (hi, got.data ());
+                    else
+                        cf[k].f2h_block_class (hi, got.data ());
+                }
+                for (uint32_t lo = 0; lo < 65536; ++lo)
+                {
+                    if (got[lo] == ref[lo]) continue;
+                    uint32_t u = hi | lo;
+                    if (hw && f_isnan (u) && h_isnan (got[lo]) && h_isnan (ref[lo]) && ((got[lo] ^ ref[lo]) & 0x8000) == 0) continue;
+                    VP_FAIL (c, std::string ("f2h-fp-environment/") + cf[k].name + (spelling ? "/class" : "/c-function"), "under " << FPMODE[m] << " float 0x" << std::hex << u << " -> 0x" << got[lo] << " in configuration " << cf[k].name << (spelling ? " (half(float).bits())" : " (imath_float_to_half)") << " but 0x" << ref[lo] << " in reference " << cf[0].name << " (default environment)");
+                }
+                evals += 65536;
+                c.bulk_label ((int) k, 65536);
+                c.bulk_label (22 + m, 65536);
+            }
+        }
+    }
+    c.bulk (evals, evals);
+}
+VP_LABELS (f2h_fp_environment, C02_CONFIG_LABELS, "FE_UPWARD", "FE_DOWNWARD", "FE_TOWARDZERO", "FTZ+DAZ")
+
+VP_EXHAUSTIVE (h2f_fp_environment, 4, 4, "every half bit pattern x every configuration (C function and cast) in each of the 4 non-default floating-point environments (index = environment), compared with the by-value oracle; NaN rule as in h2f_all_configs; non-trivial = always")
+{
+    auto& cf = configs ();
+    int   m  = (int) idx;
+    static thread_local std::vector<uint32_t> got (65536);
+    VP_NOTE (c, "all half patterns under " << FPMODE[m]);
+    uint64_t evals = 0;
+    for (size_t k = 0; k < cf.size (); ++k)
+    {
+        if (cf[k].f16c () && m == 3) continue;
+        for (int spelling = 0; spelling < 2; ++spelling)
+        {
+            if (spelling == 1 && !cf[k].h2f_all_class) continue;
+            {
+                FpMode guard (m);
+                if (spelling == 0)
+                    cf[k].h2f_all (got.data ());
+                else
+                    cf[k].h2f_all_class (got.data ());
+            }
+            for (uint32_t h = 0; h < 65536; ++h)
+            {
+                uint32_t want = ref_h2f_bits ((uint16_t) h);
+                if (got[h] == want) continue;
+                if (cf[k].f16c () && h_isnan ((uint16_t) h) && f_isnan (got[h]) && ((got[h] ^ want) & 0x80000000u) == 0) continue;
+                VP_FAIL (c, std::string ("h2f-fp-environment/") + cf[k].name + (spelling ? "/class" : "/c-function"), "under " << FPMODE[m] << " half 0x" << std::hex << h << " -> 0x" << got[h] << " in configuration " << cf[k].name << " expected 0x" << want);
+            }
+            evals += 65536;
+        }
+    }
+    c.bulk (evals, evals);
+}
 
 VP_EXHAUSTIVE (table_provenance, 1, 1, "the shipped toFloat.h initialiser compared token-for-token with the output of the generator program toFloat.cpp (built and run from the working tree) and with the reference configuration's in-memory table; 65536 entries")
 {
